@@ -351,3 +351,26 @@ w("C14", "column statistics dereferenced without a None test again", "pandera/sc
   "            for colname, properties in df_statistics[\"columns\"].items()\n")
 w("C05", "Check.__call__ re-binds on the name alone again", "pandera/api/checks.py",
   "            and self.is_builtin_check(self.name)\n            and isinstance(self._check_fn, Dispatcher)\n", "            and self.is_builtin_check(self.name)\n")
+
+# ---- third hunt wave, repaired (2d9cd1c, da38b09, 2f933ed, 44e2552) ---------------------------------------------------
+w("C19", "pandas <NA> check outputs left undecided again", BP + "checks.py",
+  "        if check_output.hasnans:\n            # nullable dtypes answer <NA> for null elements, which ``all()``\n            # skips: nulls that are not ignored fail the check, as they do\n            # for numpy dtypes (NaN > 0 is False)\n            check_output = check_output.fillna(False)\n\n        return CheckResult(\n            check_output,\n            check_output.all(),\n            check_obj,\n            self._get_series_failure_cases(check_obj, check_output),",
+  "        return CheckResult(\n            check_output,\n            check_output.all(),\n            check_obj,\n            self._get_series_failure_cases(check_obj, check_output),")
+w("C19", "grouped field keeps its nulls again (preprocess_field)", BP + "checks.py",
+  "            self._drop_group_nulls(\n                self._format_groupby_input(\n                    self.groupby(check_obj), self.check.groups\n                )\n            ),",
+  "            self._format_groupby_input(\n                self.groupby(check_obj), self.check.groups\n            ),")
+w("C19", "grouped column keeps its nulls again (preprocess_table_with_key)", BP + "checks.py",
+  "            self._drop_group_nulls(\n                self._format_groupby_input(\n                    self.groupby(check_obj)[key], self.check.groups\n                )\n            ),",
+  "            self._format_groupby_input(\n                self.groupby(check_obj)[key], self.check.groups\n            ),")
+w("C19", "group nulls dropped regardless of ignore_na", BP + "checks.py",
+  "        if not self.check.ignore_na:\n            return groups\n        return {\n            k: group.dropna()", "        return {\n            k: group.dropna()")
+w("C16", "@check hashes the unnamed Field objects again", "pandera/api/dataframe/model_components.py",
+  "FieldCheckInfo(tuple(fields), check_fn, regex, **check_kwargs)", "FieldCheckInfo(set(fields), check_fn, regex, **check_kwargs)")
+w("C16", "@parser hashes the unnamed Field objects again", "pandera/api/dataframe/model_components.py",
+  "FieldParserInfo(tuple(fields), parser_fn, **parser_kwargs)", "FieldParserInfo(frozenset(fields), parser_fn, **parser_kwargs)")
+w("C16", "pyspark @check hashes the unnamed Field objects again", "pandera/api/pyspark/model_components.py",
+  "FieldCheckInfo(tuple(fields), check_fn, regex, **check_kwargs)", "FieldCheckInfo(set(fields), check_fn, regex, **check_kwargs)")
+w("C17", "positional list rebuilt from the arguments mapping again", "pandera/decorators.py",
+  "                    args = list(bound_args.args)", "                    args = list(pos_args.values())")
+w("C17", "positional list rebuilt from the owner's arguments mapping", "pandera/decorators.py",
+  "                    args = list(bound_args.args)", "                    args = [*bound_args.arguments.values()]")
